@@ -519,16 +519,54 @@ func runC09(c *Ctx) {
 			analysed[fn] = true // every function: the callers of a helper decide whether it is entered with the lock held
 		}
 	}
-	for cl := range touches {
-		par := cl.Parent()
-		if par == nil {
-			continue
+	// a method value (c.clearLocked handed to withLock) is a closure over a bound-method wrapper: the method
+	// runs where that value is invoked, exactly like a function literal
+	boundOf := func(mc *ssa.MakeClosure) *ssa.Function {
+		w, ok := mc.Fn.(*ssa.Function)
+		if !ok || w.Parent() != nil || !strings.HasSuffix(w.Name(), "$bound") {
+			return nil
 		}
+		var target *ssa.Function
+		allInstrs(w, func(in ssa.Instruction) {
+			if ci, ok := in.(ssa.CallInstruction); ok {
+				if cal := staticCallee(ci.Common()); cal != nil {
+					target = origin(cal)
+				}
+			}
+		})
+		return target
+	}
+	type closureUse struct {
+		target, par *ssa.Function
+	}
+	var closureUses []closureUse
+	for cl := range touches {
+		if cl.Parent() != nil {
+			closureUses = append(closureUses, closureUse{cl, cl.Parent()})
+		}
+	}
+	boundTargets := map[*ssa.Function]bool{}
+	for _, fn := range fns {
+		fn := fn
+		allInstrs(fn, func(in ssa.Instruction) {
+			if mc, ok := in.(*ssa.MakeClosure); ok {
+				if t := boundOf(mc); t != nil && touches[t] && !boundTargets[t] {
+					boundTargets[t] = true
+					closureUses = append(closureUses, closureUse{t, fn})
+				}
+			}
+		})
+	}
+	for _, cu := range closureUses {
+		cl, par := cu.target, cu.par
 		var sites []invSite
 		escaped := false
 		allInstrs(par, func(in ssa.Instruction) {
 			mc, ok := in.(*ssa.MakeClosure)
-			if !ok || mc.Fn != ssa.Value(cl) {
+			if !ok {
+				return
+			}
+			if mc.Fn != ssa.Value(cl) && boundOf(mc) != cl {
 				return
 			}
 			// uses of the closure value, through conversions to a named function type (iter.Seq)
@@ -702,6 +740,14 @@ func runC09(c *Ctx) {
 				base = x.X
 			case *ssa.Field:
 				base = x.X
+			}
+			// through nested settings structs held by value (&Cache{cfg: Config{store: …}})
+			for {
+				if fa, ok := base.(*ssa.FieldAddr); ok {
+					base = fa.X
+					continue
+				}
+				break
 			}
 			_, ok := base.(*ssa.Alloc)
 			return ok
